@@ -393,6 +393,12 @@ def run(ctx):
         fs.write_real(ddir / f"domain-{agent_ids[i]}.pddl", txt)
     fs.write_real(ddir / "notes.txt", "not a domain")
     fs.write_real(ddir / "domain_other.pddl", "(this file does not match the pattern")
+    # leftovers an editor or a merge tool puts next to the agent files: they are not agent files
+    stale = ("(define (domain " + W.D["name"] + ") (:requirements :typing) (:types stale-type - object) "
+             "(:predicates (stale-pred ?s - stale-type)) (:action stale-action :parameters (?s - stale-type) "
+             ":precondition (and ) :effect (and (stale-pred ?s))))")
+    for nm in (f"domain-{agent_ids[0]}.pddl~", f"domain-{agent_ids[-1]}.pddl.bak", "domain-old.pddl.orig"):
+        fs.write_real(ddir / nm, stale)
     ctx.log("input", tuple(texts), dummy)
     # ---- bystanders parsed before
     b_typed = C.parse_domain(ctx, TYPED, "bystander-typed.pddl")
@@ -532,6 +538,9 @@ def run(ctx):
     prefix = ["problem", "pfile", "p", "prob-x"][cfg.draw(4)]
     for i, PF in enumerate(pfiles):
         fs.write_real(ddir / f"{prefix}-{agent_ids[i]}.pddl", G.render_problem(W.D, PF))
+    fs.write_real(ddir / f"{prefix}-{agent_ids[0]}.pddl.orig",
+                  G.render_problem(W.D, dict(pfiles[0], facts=set(), goal=[], goal_num=[])).replace(
+                      "(:objects", "(:objects stale-object - " + next(iter(W.D["types"])) + " "))
     pconv = MultiAgentProblemsConverter(ddir, prefix)
     # ---- fault: an unreadable / torn agent problem file => combine_problems raises; a later call is unaffected
     if cfg.chance(1, 3):
